@@ -139,8 +139,18 @@ def run(ck, w):
         fam = [b_ for b_ in lib.family("excludes::Exclude::from_patterns_and_files")]
     cutters = re.compile(r"<impl str>::(split|splitn|rsplit|rsplitn|split_once|rsplit_once|split_terminator|find|rfind|replace|replacen|trim_matches|"
                          r"trim_start_matches|trim_end_matches|strip_prefix|strip_suffix|to_lowercase|to_uppercase|to_ascii_lowercase|char_indices|get)$|"
-                         r"str>::index$|ops::Index<.*> for str>::index$|<impl std::ops::Index<I> for str>::index$")
-    cut = [(fb, e) for fb in fam for e in fb.events if e.bb in fb.live and cutters.search(e.name)]
+                         r"str>::index$|ops::Index<.*> for str>::index$|<impl std::ops::Index<I> for str>::index$|"
+                         # ... or built anew from the line: format!, push_str, +, concat / join
+                         r"^(alloc|std)::fmt::format$|String::(push_str|push|insert|insert_str)$|<impl \[.*\]>::(concat|join)$|"
+                         r"ops::Add<&str>>::add$|ops::Add<.*> for std::string::String>::add$")
+    builders = re.compile(r"^(alloc|std)::fmt::format$|String::(push_str|push|insert|insert_str)$|<impl \[.*\]>::(concat|join)$|ops::Add<.*>>::add$")
+    fed = set()          # what the pattern handed to add_pattern is made by
+    for fb in fam:
+        for e in fb.events:
+            if e.bb in fb.live and e.name == "excludes::add_pattern" and len(e.args) > 1:
+                oo = flow.origins_x(lib, fb, e.args[1], through_all=[r"Deref>?::deref$", r"String::as_str$", r"AsRef<.*>>?::as_ref$", r"Borrow<.*>>?::borrow$"])
+                fed |= flow.origin_calls(oo)
+    cut = [(fb, e) for fb in fam for e in fb.events if e.bb in fb.live and cutters.search(e.name) and (not builders.search(e.name) or e.name in fed)]
     has_lines = any(e.name.endswith("<impl str>::lines") for fb in fam for e in fb.events if e.bb in fb.live)
     hash_test = False
     for fb in fam:
